@@ -53,6 +53,13 @@ class Sink:
         pass
 
 
+class LenSink(Sink):
+    """a caller-supplied file_factory whose instances are FALSY while empty (it defines __len__, like a list / bytearray based sink)"""
+
+    def __len__(self):
+        return len(self.items)
+
+
 def make_shims() -> Shims:
     s = Shims()
     s.add(M, re=ReShim, bytes=bytes_shim, bytearray=bytearray_shim,
@@ -274,12 +281,12 @@ def norm_events(evs):
     return out
 
 
-def run_concrete(entry: str, body: bytes, cuts: List[int], boundary: bytes, empty_chunks=False, limits=None):
+def run_concrete(entry: str, body: bytes, cuts: List[int], boundary: bytes, empty_chunks=False, limits=None, factory=None):
     """Unshimmed real code (real UploadFile, real re) on a concrete body. Returns normal form
     with contents as bytes, or ('exc', type name, status)."""
     chunks = [bytes(c) for c in split(list(body), cuts, empty_chunks)]
     try:
-        r = run_entry(entry, chunks, boundary, factory=UploadFile, limits=limits)
+        r = run_entry(entry, chunks, boundary, factory=factory or UploadFile, limits=limits)
     except HTTPException as e:
         return ("exc", type(e).__name__, e.status_code)
     except Exception as e:  # noqa: BLE001
